@@ -1737,9 +1737,16 @@ class AutoImporter:
             self._ast_transformer = t = _AutoImporter_ast_transformer()
             ip.ast_transformers.append(t)
             def unregister_ast_transformer():
-                try:
-                    ip.ast_transformers.remove(t)
-                except ValueError:
+                # Rebind instead of removing in place: when an internal
+                # error makes us disable from inside ``t.visit()``, IPython's
+                # ``transform_ast()`` is iterating over this very list, and
+                # an in-place removal would make it skip the transformer
+                # that follows ours for the current cell.
+                transformers = ip.ast_transformers
+                if any(x is t for x in transformers):
+                    ip.ast_transformers = [
+                        x for x in transformers if x is not t]
+                else:
                     logger.info(
                         "Couldn't remove ast_transformer hook - already gone?")
                 self._ast_transformer = None
